@@ -45,7 +45,7 @@ use arrow::compute::{
     self, BatchCoalescer, SortOptions, concat_batches, filter_record_batch, interleave,
     take_arrays,
 };
-use arrow::datatypes::SchemaRef;
+use arrow::datatypes::{Schema, SchemaRef};
 use datafusion_common::cast::as_uint64_array;
 use datafusion_common::instant::Instant;
 use datafusion_common::{
@@ -1560,8 +1560,18 @@ impl MaterializingSortMergeJoinStream {
 
         if !filter_columns.is_empty() {
             if let Some(f) = &self.filter {
-                let filter_batch =
-                    RecordBatch::try_new(Arc::clone(f.schema()), filter_columns)?;
+                // Streamed rows without a buffered match are paired with NULL
+                // buffered columns here, so the filter batch must not inherit
+                // the NOT NULL flags of the join inputs' fields.
+                let filter_schema = Arc::new(Schema::new_with_metadata(
+                    f.schema()
+                        .fields()
+                        .iter()
+                        .map(|field| field.as_ref().clone().with_nullable(true))
+                        .collect::<Vec<_>>(),
+                    f.schema().metadata().clone(),
+                ));
+                let filter_batch = RecordBatch::try_new(filter_schema, filter_columns)?;
                 let filter_result = f
                     .expression()
                     .evaluate(&filter_batch)?
